@@ -580,6 +580,10 @@ def compare(case, res, reqs, replies):
             ire, iim = a["data"][i]
             if ty in ("bool", "int"):
                 ok = (re_ == ire and im_ == 0)
+                # excluded point (PARTIAL): a token whose binary64 value is >= 2^63 in magnitude (e.g. 9223372036854775807
+                # read through the float/complex parser of a mixed text) has no defined astype(int); numpy yields INT64_MIN
+                if not ok and ty == "int" and abs(float(re_)) >= 2.0 ** 63 and ire == -2 ** 63:
+                    ok = True
             else:
                 ok = (float(re_) == ire and float(im_) == iim)
             if not ok:
